@@ -85,6 +85,12 @@ pub struct CaseResult {
     pub nontrivial: bool,
     pub fingerprint: u64,
     pub stats: Stats,
+    /// digest of the complete event log of the main run (0 = not provided)
+    #[serde(default)]
+    pub digest: u64,
+    /// the case thread is still running: the process must be replaced
+    #[serde(default)]
+    pub timed_out: bool,
 }
 
 impl CaseResult {
@@ -109,6 +115,13 @@ pub struct PropertyDef {
     pub execute: fn(&Case) -> CaseResult,
     /// probes/counters that must be non-zero after a batch (else harness error)
     pub must_hit: &'static [&'static str],
+    /// wall-clock bound for one case (a step normally takes microseconds)
+    pub timeout_s: u64,
+    /// `Some(class)`: a case that does not finish in time is a violation of this class
+    pub hang_class: Option<&'static str>,
+    /// other builds of the simulator in which (a prefix of) the same runs is repeated:
+    /// (build name, runs quick, runs thorough, compare per-run digests with this build)
+    pub sub_builds: &'static [(&'static str, u64, u64, bool)],
 }
 
 pub fn exec_on_thread(def: &'static PropertyDef, case: &Case) -> CaseResult {
@@ -117,14 +130,23 @@ pub fn exec_on_thread(def: &'static PropertyDef, case: &Case) -> CaseResult {
         c.program.reanalyze();
     }
     let exec = def.execute;
-    let r = run_case_thread(case.hash_seed, case.story_seed, case.fuel, move || {
+    let r = run_case_thread(case.hash_seed, case.story_seed, case.fuel, def.timeout_s, move || {
         let mut r = exec(&c);
         r.stats.probes();
         r
     });
     match r {
-        Some(r) => r,
-        None => {
+        Ok(r) => r,
+        Err(true) => {
+            let mut r = CaseResult::default();
+            r.timed_out = true;
+            match def.hang_class {
+                Some(class) => r.violations.push(Violation::new(def.id, class, "watchdog", &format!("case did not finish within {} s", def.timeout_s))),
+                None => r.discard = Some("timeout".into()),
+            }
+            r
+        }
+        Err(false) => {
             let mut r = CaseResult::default();
             r.violations.push(Violation::new(def.id, "harness-thread-died", "", "case thread panicked outside catch_unwind"));
             r
@@ -194,19 +216,20 @@ pub struct WorkerOut {
     pub stats: Stats,
     pub failures: Vec<(Case, Violation)>,
     pub done: u64,
+    #[serde(default)]
+    pub digests: Vec<(u64, u64)>,
+    /// the worker stopped early (a case hung): restart from this run index
+    pub resume: Option<u64>,
 }
 
-pub fn worker_main(def: &'static PropertyDef, tier: Tier, seed: u64, workers: u64, index: u64, out: &Path, only_run: Option<u64>) {
+pub fn worker_main(def: &'static PropertyDef, tier: Tier, seed: u64, workers: u64, index: u64, out: &Path, only_run: Option<u64>, start: u64) {
     let corpus = Corpus::load();
-    let total = match tier {
-        Tier::Quick => def.runs_quick,
-        Tier::Thorough => def.runs_thorough,
-    };
+    let total = runs_for(def, tier);
     let mut wo = WorkerOut::default();
     let cur = out.with_extension("cur");
     let deadline = std::env::var("VERIF_WORKER_DEADLINE_S").ok().and_then(|s| s.parse::<u64>().ok());
     let t0 = Instant::now();
-    let mut run = index;
+    let mut run = index.max(start);
     let mut seen_sigs: BTreeMap<String, u32> = BTreeMap::new();
     while run < total {
         if let Some(o) = only_run {
@@ -223,6 +246,10 @@ pub fn worker_main(def: &'static PropertyDef, tier: Tier, seed: u64, workers: u6
         if let Some(case) = case {
             let _ = std::fs::write(&cur, format!("{run}"));
             let r = exec_on_thread(def, &case);
+            let timed_out = r.timed_out;
+            if r.digest != 0 {
+                wo.digests.push((run, r.digest));
+            }
             wo.stats.inc("evaluations");
             wo.stats.inc(&format!("programs.{}", case.program.kind));
             if let Some(d) = &r.discard {
@@ -242,6 +269,15 @@ pub fn worker_main(def: &'static PropertyDef, tier: Tier, seed: u64, workers: u6
                     wo.failures.push((case.clone(), v));
                 }
             }
+            if timed_out {
+                // the runaway thread cannot be stopped: hand over to a fresh process
+                wo.stats.inc("watchdog_restarts");
+                wo.resume = Some(run + workers);
+                wo.done += 1;
+                std::fs::write(out, serde_json::to_vec(&wo).unwrap()).unwrap();
+                let _ = std::fs::remove_file(&cur);
+                std::process::exit(0);
+            }
         } else {
             wo.stats.inc("skipped_no_case");
         }
@@ -253,6 +289,27 @@ pub fn worker_main(def: &'static PropertyDef, tier: Tier, seed: u64, workers: u6
     }
     let _ = std::fs::remove_file(&cur);
     std::fs::write(out, serde_json::to_vec(&wo).unwrap()).unwrap();
+}
+
+/// Number of runs of a batch: the tier's count, or `VERIF_RUNS` (used for sub-build batches).
+pub fn runs_for(def: &PropertyDef, tier: Tier) -> u64 {
+    if let Some(n) = std::env::var("VERIF_RUNS").ok().and_then(|s| s.parse::<u64>().ok()) {
+        return n;
+    }
+    match tier {
+        Tier::Quick => def.runs_quick,
+        Tier::Thorough => def.runs_thorough,
+    }
+}
+
+pub fn build_bin(build: &str) -> PathBuf {
+    let t = verif_dir().join("target");
+    match build {
+        "dev" => t.join("debug/inksim"),
+        "release" => t.join("release/inksim"),
+        "release+stream-json-parser" => t.join("stream/release/inksim"),
+        other => t.join(other).join("inksim"),
+    }
 }
 
 pub fn sample_of(case: &Case) -> J {
@@ -284,15 +341,16 @@ pub struct BatchResult {
     pub stats: Stats,
     pub failures: Vec<(Case, Violation)>,
     pub wall_s: f64,
+    pub digests: BTreeMap<u64, u64>,
 }
 
 pub fn run_batch(def: &'static PropertyDef, tier: Tier, seed: u64, workers: u64) -> BatchResult {
     let t0 = Instant::now();
     let work = verif_dir().join("work").join(format!("{}-{}", def.id, std::process::id()));
     std::fs::create_dir_all(&work).unwrap();
-    let mut children = Vec::new();
-    for k in 0..workers {
+    let spawn = |k: u64, start: u64| {
         let out = work.join(format!("w{k}.json"));
+        let _ = std::fs::remove_file(&out);
         let child = Command::new(self_exe())
             .args([
                 "worker",
@@ -302,20 +360,31 @@ pub fn run_batch(def: &'static PropertyDef, tier: Tier, seed: u64, workers: u64)
                 &workers.to_string(),
                 &k.to_string(),
                 out.to_str().unwrap(),
+                "-",
+                &start.to_string(),
             ])
             .stdin(Stdio::null())
             .spawn()
             .expect("spawn worker");
-        children.push((k, out, child));
+        (k, out, child)
+    };
+    let mut children = Vec::new();
+    for k in 0..workers {
+        children.push(spawn(k, 0));
     }
     let mut stats = Stats::default();
     let mut failures = Vec::new();
-    for (k, out, mut child) in children {
+    let mut digests: BTreeMap<u64, u64> = BTreeMap::new();
+    while let Some((k, out, mut child)) = children.pop() {
         let st = child.wait().expect("wait");
         if st.success() && out.exists() {
             let wo: WorkerOut = serde_json::from_slice(&std::fs::read(&out).unwrap()).expect("worker output");
             stats.merge(wo.stats);
             failures.extend(wo.failures);
+            digests.extend(wo.digests);
+            if let Some(next) = wo.resume {
+                children.push(spawn(k, next));
+            }
         } else {
             // worker died: attribute to the case it was executing
             let cur = out.with_extension("cur");
@@ -326,9 +395,11 @@ pub fn run_batch(def: &'static PropertyDef, tier: Tier, seed: u64, workers: u64)
                     let corpus = Corpus::load();
                     let mut rng = Rng::new(mix(seed, def.id, run));
                     if let Some(case) = (def.generate)(&corpus, tier, run, &mut rng) {
-                        let v = Violation::new(def.id, "abort", "process", &format!("worker {k} died ({st}) while executing run {run}"));
+                        let v = Violation::new(def.id, "abort", "process", &format!("worker died ({st}) while executing a case"));
                         failures.push((case, v));
                     }
+                    // the runs this worker had not reached yet are still owed
+                    children.push(spawn(k, run + workers));
                 }
                 None => {
                     eprintln!("harness error: worker {k} died ({st}) outside a case");
@@ -339,7 +410,7 @@ pub fn run_batch(def: &'static PropertyDef, tier: Tier, seed: u64, workers: u64)
     }
     let _ = std::fs::remove_dir_all(&work);
     failures.sort_by_key(|f| f.0.run);
-    BatchResult { stats, failures, wall_s: t0.elapsed().as_secs_f64() }
+    BatchResult { stats, failures, wall_s: t0.elapsed().as_secs_f64(), digests }
 }
 
 /// Execute a case in a fresh child process. Returns the violations it reports
@@ -525,7 +596,8 @@ pub fn write_replay(case: &Case, v: &Violation, seed: u64, minimised: J) -> Path
     let dir = verif_dir().join("replays");
     std::fs::create_dir_all(&dir).unwrap();
     let digest = violation_digest(v);
-    let path = dir.join(format!("{}-{}-{}.json", v.property, seed, &digest[..10]));
+    let suffix = if build_name() == "release" { String::new() } else { format!("-{}", build_name().replace('+', "_")) };
+    let path = dir.join(format!("{}-{}-{}{}.json", v.property, seed, &digest[..10], suffix));
     let rf = ReplayFile {
         schema: 1,
         property: v.property.clone(),
@@ -577,7 +649,13 @@ pub fn triage(def: &'static PropertyDef, seed: u64, failures: Vec<(Case, Violati
         }
     }
     let mut new_violations = Vec::new();
-    for (c, v) in fresh.into_iter().take(6) {
+    for (c, v) in fresh.into_iter().take(40) {
+        if v.class == "profile-divergence" {
+            // established by comparing two builds; replay re-runs both
+            let path = write_replay(&c, &v, seed, json!({"note": "not minimised: needs both builds"}));
+            new_violations.push((v, path));
+            continue;
+        }
         // confirm, shrink, write, verify in a fresh process
         let confirm = if v.class == "abort" { exec_in_child(def, &c, "confirm") } else { exec_on_thread(def, &c).violations };
         let v = match same_sig(&confirm, &v.signature()) {
@@ -641,6 +719,7 @@ pub fn write_evidence(def: &'static PropertyDef, tier: Tier, seed: u64, br: &Bat
         .values()
         .map(|(k, n)| json!({"id": k.id, "what": k.what, "cases": n}))
         .collect();
+    let subs: Vec<J> = SUB_REPORTS.with(|r| r.borrow().clone());
     let ev = json!({
         "property_id": def.id,
         "tier": tier.name(),
@@ -666,6 +745,7 @@ pub fn write_evidence(def: &'static PropertyDef, tier: Tier, seed: u64, br: &Bat
             "counters": counters,
             "known_findings_hit": known,
             "build": build_name(),
+            "other_builds": subs,
             "components": {
                 "real": ["bladeink runtime (/repo/runtime, feature verif-hooks)", "bladeink-compiler (/repo/compiler)", "serde_json"],
                 "stub": ["host callbacks (observers, external functions, error handler)", "entropy (getrandom seam)",
@@ -685,8 +765,80 @@ pub fn write_evidence(def: &'static PropertyDef, tier: Tier, seed: u64, br: &Bat
     std::fs::rename(tmp, dir.join(format!("{}.json", def.id))).unwrap();
 }
 
+thread_local! {
+    static SUB_REPORTS: std::cell::RefCell<Vec<J>> = const { std::cell::RefCell::new(Vec::new()) };
+}
+
+/// Repeat (a prefix of) the batch in another build of the simulator. Returns its exit code.
+fn run_sub_build(def: &'static PropertyDef, tier: Tier, seed: u64, workers: u64, build: &str, runs: u64, compare: bool, br: &BatchResult, extra_failures: &mut Vec<(Case, Violation)>) -> i32 {
+    let bin = build_bin(build);
+    if !bin.exists() {
+        eprintln!("harness error: {} build of the simulator is missing ({}); run ./check (it builds it)", build, bin.display());
+        return 2;
+    }
+    let t0 = Instant::now();
+    let out = Command::new(&bin)
+        .args(["check", def.id, "--tier", tier.name(), "--seed", &seed.to_string(), "--workers", &workers.to_string(), "--sub"])
+        .env("VERIF_RUNS", runs.to_string())
+        .stdin(Stdio::null())
+        .output()
+        .expect("spawn sub build");
+    let text = String::from_utf8_lossy(&out.stdout).to_string();
+    for l in text.lines() {
+        if l.starts_with("VIOLATION") || l.starts_with("KNOWN-FINDING") || l.starts_with("  violation") || l.starts_with("  signature") {
+            println!("{l}");
+        }
+    }
+    let code = out.status.code().unwrap_or(2);
+    if code == 2 {
+        eprintln!("{}", String::from_utf8_lossy(&out.stderr));
+    }
+    let side = verif_dir().join("work").join(format!("sub-{}-{}.json", def.id, build.replace('+', "_")));
+    let mut report = json!({"build": build, "runs": runs, "exit": code, "wall_s": t0.elapsed().as_secs_f64()});
+    if let Ok(b) = std::fs::read(&side) {
+        if let Ok(j) = serde_json::from_slice::<J>(&b) {
+            report["evaluations"] = j["evaluations"].clone();
+            report["distinct_nontrivial"] = j["distinct_nontrivial"].clone();
+            report["violations"] = j["violations"].clone();
+            if compare {
+                let mut compared = 0u64;
+                let mut differ = 0u64;
+                if let Some(m) = j["digests"].as_object() {
+                    for (k, v) in m {
+                        let run: u64 = k.parse().unwrap_or(u64::MAX);
+                        if let (Some(theirs), Some(ours)) = (v.as_u64(), br.digests.get(&run)) {
+                            compared += 1;
+                            if theirs != *ours {
+                                differ += 1;
+                                if extra_failures.len() < 4 {
+                                    let corpus = Corpus::load();
+                                    let mut rng = Rng::new(mix(seed, def.id, run));
+                                    if let Some(case) = (def.generate)(&corpus, tier, run, &mut rng) {
+                                        let v = Violation::new(def.id, "profile-divergence", build, "event log digest differs between builds")
+                                            .with(format!("run {run}"), format!("{:016x} ({})", ours, build_name()), format!("{:016x} ({build})", theirs));
+                                        extra_failures.push((case, v));
+                                    }
+                                }
+                            }
+                        }
+                    }
+                }
+                report["digests_compared"] = json!(compared);
+                report["digests_differing"] = json!(differ);
+            }
+        }
+        let _ = std::fs::remove_file(&side);
+    }
+    SUB_REPORTS.with(|r| r.borrow_mut().push(report));
+    code
+}
+
 /// Entry point of `inksim check <ID>`; returns the process exit code.
 pub fn check_main(def: &'static PropertyDef, tier: Tier, seed: u64, workers: u64) -> i32 {
+    let is_sub = std::env::args().any(|a| a == "--sub");
+    if is_sub {
+        return sub_main(def, tier, seed, workers);
+    }
     // replay files of earlier runs of this property are superseded
     if let Ok(rd) = std::fs::read_dir(verif_dir().join("replays")) {
         for e in rd.flatten() {
@@ -697,8 +849,18 @@ pub fn check_main(def: &'static PropertyDef, tier: Tier, seed: u64, workers: u64
         }
     }
     let br = run_batch(def, tier, seed, workers);
-    let failures = br.failures.clone();
+    let mut failures = br.failures.clone();
+    let mut sub_code = 0;
+    for (build, rq, rt, compare) in def.sub_builds {
+        let runs = if std::env::var("VERIF_RUNS").is_ok() { runs_for(def, tier) } else if tier == Tier::Quick { *rq } else { *rt };
+        let c = run_sub_build(def, tier, seed, workers, build, runs, *compare, &br, &mut failures);
+        sub_code = sub_code.max(c);
+    }
     let rep = triage(def, seed, failures, &br.stats);
+    if sub_code == 2 {
+        write_evidence(def, tier, seed, &br, &rep);
+        return 2;
+    }
     // must-hit probes: a probe stuck at zero means the workload does not reach what it claims
     for m in def.must_hit {
         if br.stats.get(m) == 0 && br.stats.set_len(m) == 0 {
@@ -721,8 +883,13 @@ pub fn check_main(def: &'static PropertyDef, tier: Tier, seed: u64, workers: u64
         br.wall_s,
         rep.new_violations.len()
     );
+    for (k, v) in &br.stats.counters {
+        if let Some(sig) = k.strip_prefix("violation_sig.") {
+            println!("  signature {sig}: {v} case(s)");
+        }
+    }
     if rep.new_violations.is_empty() {
-        0
+        sub_code
     } else {
         for (v, p) in &rep.new_violations {
             println!("  violation class={} site={} detail={} at={}", v.class, v.site, v.detail, v.at);
@@ -734,6 +901,31 @@ pub fn check_main(def: &'static PropertyDef, tier: Tier, seed: u64, workers: u64
 
 impl Clone for BatchResult {
     fn clone(&self) -> Self {
-        BatchResult { stats: self.stats.clone(), failures: self.failures.clone(), wall_s: self.wall_s }
+        BatchResult { stats: self.stats.clone(), failures: self.failures.clone(), wall_s: self.wall_s, digests: self.digests.clone() }
     }
+}
+
+/// A batch run on behalf of another build's check: own triage and replay files, results in a side file.
+fn sub_main(def: &'static PropertyDef, tier: Tier, seed: u64, workers: u64) -> i32 {
+    let br = run_batch(def, tier, seed, workers);
+    let rep = triage(def, seed, br.failures.clone(), &br.stats);
+    for (k, n) in rep.known_hit.values() {
+        println!("KNOWN-FINDING: property={} {} [{}; {} case(s) this run; build {}]", def.id, k.what, k.id, n, build_name());
+    }
+    for (k, v) in &br.stats.counters {
+        if let Some(sig) = k.strip_prefix("violation_sig.") {
+            println!("  signature {sig}: {v} case(s) [build {}]", build_name());
+        }
+    }
+    let digests: serde_json::Map<String, J> = br.digests.iter().map(|(k, v)| (k.to_string(), json!(v))).collect();
+    let side = verif_dir().join("work").join(format!("sub-{}-{}.json", def.id, build_name().replace('+', "_")));
+    let _ = std::fs::create_dir_all(side.parent().unwrap());
+    let j = json!({"evaluations": br.stats.get("evaluations"), "distinct_nontrivial": br.stats.set_len("nontrivial"),
+                   "violations": rep.new_violations.len(), "digests": digests});
+    std::fs::write(&side, serde_json::to_vec(&j).unwrap()).unwrap();
+    for (v, p) in &rep.new_violations {
+        println!("  violation class={} site={} detail={} at={} [build {}]", v.class, v.site, v.detail, v.at, build_name());
+        println!("VIOLATION property={} replay={}", def.id, p.display());
+    }
+    if rep.new_violations.is_empty() { 0 } else { 1 }
 }
